@@ -329,7 +329,8 @@ class CmdParse(object):
             if this.type is bool:
                 params[this.name] = not inverse
             elif this.type is list:
-                params[this.name].append(val)
+                # do not modify (shared) default value in-place
+                params[this.name] = params[this.name] + [val]
             else:
                 params[this.name] = this.str2type(val)
 
